@@ -35,6 +35,9 @@ pub fn run(name: &str, a: &Args) -> Option<String> {
         // lookup through the parsed file for a TAI epoch: "1 delta" / "0" (no entry) or E<k>
         "leapfile_lookup" => perr(load(&content(a, 0)).map(|f| {
             let e = Epoch::from_tai_duration(a.dur(1));
+            // every entry of a file is an announced one: the flag changes nothing
+            let f2 = load(&content(a, 0)).expect("loaded once already");
+            assert!(e.leap_seconds_with(false, f2) == e.leap_seconds_with(true, load(&content(a, 0)).expect("loaded once already")));
             match e.leap_seconds_with(true, f) {
                 Some(d) => format!("1 {}", d as i128),
                 None => "0".to_string(),
